@@ -207,9 +207,12 @@ class Run:
             self.save(snaps, phase)
         W = self.W
         if getattr(self.cfg, "error_script", False) and phase == 0:
-            if self.error_script():
-                W.drain()
-                self.at_quiescence("error")
+            for n in range(getattr(self.cfg, "errors", 1)):
+                if n > 0 and (not self.open_irqs() or self.terminal_events() or self.I.path.choose(2, "second-error") == 0):
+                    break
+                if self.error_script():
+                    W.drain()
+                    self.at_quiescence("error")
         for i in range(phase, self.cfg.k):
             if not self.scripted_action(i):
                 break
@@ -495,6 +498,25 @@ class Run:
 
         return bool(walk(self.model, False))
 
+    def descendants(self, t, ts, by_tid):
+        out = []
+        for x in ts:
+            if x["tid"] == t["tid"]:
+                continue
+            p = x["prev"]
+            seen = 0
+            while p is not None and seen < 100:
+                seen += 1
+                if p == t["tid"]:
+                    if x["level"] > t["level"]:
+                        out.append(x)
+                    break
+                pt = by_tid.get(p)
+                if pt is None or pt["level"] <= t["level"]:
+                    break
+                p = pt["prev"]
+        return out
+
     # ================================================================== C08 message stream
     def q_c08(self, where):
         W = self.W
@@ -608,14 +630,18 @@ class Run:
         r = W.action(self.pid, t["tid"], "Error", {"ecode": code, "message": "boom"})
         acc = None if r is None else r.d == 0
         self.err_case = dict(nid=t["nid"], code=code, accepted=acc)
+        self.err_cases = getattr(self, "err_cases", []) + [self.err_case]
         self.log.append(dict(target=t["nid"], target_state=t["state"], target_kind="Act", action="Error", accepted=acc,
                              options={"ecode": code, "message": "boom"}, occurrence=0, dyn_index=None))
         return True
 
     def e_c06(self):
-        ec = getattr(self, "err_case", None)
-        if not ec or not ec["accepted"]:
-            return
+        cases = [c for c in getattr(self, "err_cases", []) if c["accepted"]]
+        used = set()
+        for i, ec in enumerate(cases):
+            self.c06_case(ec, i == len(cases) - 1, used)
+
+    def c06_case(self, ec, final, used):
         self.res.witnesses += 1
         W = self.W
         ts = self.tasks()
@@ -633,7 +659,12 @@ class Run:
         inst = lambda nid: [t for t in ts if t["nid"] == nid]
         errs = [e for e in W.events if e[0] == "error" and e[1]["pid"] == self.pid]
         comps = [e for e in W.events if e[0] == "complete" and e[1]["pid"] == self.pid]
-        shape = "catcher=%s" % ("none" if catcher is None else chain[catcher][0] + ("+%d" % catcher))
+        if catcher is not None:
+            if chain[catcher][1]["id"] in used:
+                return  # a second error reaching a catch that already fired: not specified by the property
+            used.add(chain[catcher][1]["id"])
+        if catcher is None and not final:
+            return
         if catcher is None:
             for kind, n in chain:
                 for t in inst(n["id"])[-1:]:
@@ -653,23 +684,26 @@ class Run:
                     self.viol("below-catcher-not-error:%s=%s" % (kind, t["state"]), "%s %s below the catching task is %s" % (kind, n["id"], t["state"]))
         ckind, cn = chain[catcher]
         for t in inst(cn["id"])[-1:]:
-            if t["state"] != "Completed":
+            if final and t["state"] != "Completed":
                 self.viol("catcher-not-completed:%s=%s" % (ckind, t["state"]), "catching %s %s ended %s" % (ckind, cn["id"], t["state"]))
         for c in cn.get("catches", []) or []:
             for sidx, snode in enumerate(c.get("steps", []) or []):
                 n_inst = len(inst(snode["id"]))
                 if c is match:
+                    used.add("steps:" + snode["id"])
                     if n_inst != 1:
                         self.viol("catch-steps-ran=%d" % n_inst, "matching catch step %s ran %d times" % (snode["id"], n_inst))
-                    elif inst(snode["id"])[0]["state"] != "Completed":
+                    elif final and inst(snode["id"])[0]["state"] != "Completed":
                         self.viol("catch-step-state=%s" % inst(snode["id"])[0]["state"], "catch step %s is %s" % (snode["id"], inst(snode["id"])[0]["state"]))
-                elif n_inst != 0:
+                elif n_inst != 0 and ("steps:" + snode["id"]) not in used:
                     self.viol("other-catch-ran", "steps of a non-selected catch ran (%s)" % snode["id"])
         for kind, n in chain[:catcher]:
             for c in n.get("catches", []) or []:
                 for snode in c.get("steps", []) or []:
-                    if inst(snode["id"]):
+                    if inst(snode["id"]) and ("steps:" + snode["id"]) not in used:
                         self.viol("non-matching-catch-ran", "steps of a non-matching catch ran (%s)" % snode["id"])
+        if not final:
+            return
         if errs:
             self.viol("caught-but-error-event", "the error was caught but an error event was delivered")
         if len(comps) != 1 or comps[0][1]["state"] != "Completed":
@@ -863,15 +897,33 @@ class ReplayRun(Run):
             t["level"] = lv if lv is not None else 99
             t["uses"] = node.get("uses", "") if t["kind"] == "Act" else ""
             t["hooks"] = ["Timeout"] if node.get("timeout") else []
-            t["err"] = None
+            t["err"] = self.live_err(t["tid"])
             out.append(t)
         return out
 
     def proc_state(self):
         return self.obs["procs"][0]["state"]
 
+    def live_err(self, tid):
+        import json as _json
+        for lv in self.obs.get("live") or []:
+            for t in (lv or {}).get("tasks", []):
+                if t["tid"] == tid and t.get("err"):
+                    try:
+                        return _json.loads(t["err"]) if isinstance(t["err"], str) else t["err"]
+                    except ValueError:
+                        return {"raw": t["err"]}
+        return None
+
     def q_c02(self, where):
         pass
+
+    def r_c06(self, v, obs):
+        errs = [e for e in self.log if e.get("action") == "Error"]
+        if not errs:
+            return
+        self.err_cases = [dict(nid=e["target"], code=e["options"]["ecode"], accepted=bool(e.get("accepted"))) for e in errs]
+        self.e_c06()
 
     def r_c02(self, v, obs):
         """The same lifecycle oracle on the state-write trace of the real engine (verif hook)."""
